@@ -170,3 +170,34 @@ def rows_of(built: Built, results) -> List[tuple]:
         else:
             out.append(tuple(r[e] for e in built.sel))
     return out
+
+
+# ----------------------------------------------------------------------------- rule inference
+
+from entity_query_language import infer, rule_mode  # noqa: E402
+
+
+def build_head(head, V):
+    """Must be called inside rule_mode(): the symbolic constructor call of the rule head."""
+    cls = CLASSES[head["cls"]]
+    args = [(k, build_term(t, V)) for k, t in head["args"]]
+    if head.get("positional"):
+        return cls(*[v for _, v in args])
+    return cls(**dict(args))
+
+
+def build_infer(V, head, cond, style: str = "infer_entity", split_top: bool = False):
+    """infer(entity(T(f=e...), conditions)) built in rule mode over declared variables V."""
+    with rule_mode():
+        h = build_head(head, V)
+        if cond is None:
+            conds = []
+        elif split_top and cond[0] == "and":
+            conds = [build_cond(x, V) for x in cond[2]]
+        else:
+            conds = [build_cond(cond, V)]
+        if style == "infer_entity":
+            q = infer(entity(h, *conds))
+        else:
+            q = infer(h, *conds)
+    return q
